@@ -179,6 +179,9 @@ func (c *Cluster) StartS3(config string, extra ...string) *Proc {
 
 // WaitHTTP polls url until it answers with a status below 500 (bounded; inconclusive otherwise).
 func (c *Cluster) WaitHTTP(url string, what string, seconds int) bool {
+	if seconds < 240 {
+		seconds = 240 // generous on purpose: expiry is inconclusive, and the loop ends as soon as the server answers
+	}
 	deadline := time.Now().Add(time.Duration(seconds) * time.Second)
 	for time.Now().Before(deadline) {
 		resp, err := http.Get(url)
@@ -198,6 +201,9 @@ func (c *Cluster) WaitHTTP(url string, what string, seconds int) bool {
 // WaitAssign waits until the master hands out a file id (raft leader elected and
 // a volume server with free slots registered).
 func (c *Cluster) WaitAssign(query string, seconds int) bool {
+	if seconds < 360 {
+		seconds = 360 // raft election takes 3-25 s on an idle box, minutes on an overloaded one
+	}
 	deadline := time.Now().Add(time.Duration(seconds) * time.Second)
 	url := c.Master.Url() + "/dir/assign"
 	if query != "" {
